@@ -3,6 +3,9 @@ CONSTANTS
   Relax = {}
   Mode = "revoked"
   MaxBlocks = 3
+  Layouts = {"plain"}
+  MaxUnwind = 0
+  Defect = "none"
   MaxReload = 1
 CONSTRAINT Bounded
 VIEW View
